@@ -21,6 +21,7 @@
    and --no-timings / --no-multiline / colour switches.
 TLC (Consumers_Trace) judges all rows: grammar of the recorded stream, json_valid, json_mirror, json_readback,
 plain_once, progress_once, agree, no_crash.  Python renders, runs, reads files and maps locations to ids."""
+import bisect
 import itertools
 import json
 import os
@@ -121,17 +122,24 @@ def thin(jobs, quota, rnd):
 
 
 def plan_jobs(chk, quota, rnd):
+    """a class-balanced part of the (program, cfg, fault set) triples of the shared plan"""
+    pl = stage.plan(chk.tier, chk.seed)
+    offs, total = [], 0
+    for p, cfgs, faults in pl:
+        offs.append(total)
+        total += len(cfgs) * len(faults)
+    picks = range(total) if total <= quota * 8 else sorted(rnd.sample(range(total), quota * 8))
+    flats = {}
     jobs = []
-    for tid, (p, cfgs, faults) in enumerate(stage.plan(chk.tier, chk.seed)):
-        flat = G.flatten(p)
-        for ci, c in enumerate(cfgs):
-            c = dict(c, retry=False)        # scenario_autoretry announces a scenario twice: outside the statement of C15
-            for fi, f in enumerate(faults):
-                jobs.append({"key": ["plan", tid + 1, ci + 1, fi + 1], "prog": p, "flat": flat, "cfg": c, "fault": f,
-                             "fault_kind": "assert" if (tid + ci + fi) % 3 == 0 else "exc", "pass": "reports"})
-    total = len(jobs)
-    if total > quota * 8:
-        jobs = rnd.sample(jobs, quota * 8)
+    for n in picks:
+        tid = bisect.bisect_right(offs, n) - 1
+        p, cfgs, faults = pl[tid]
+        ci, fi = divmod(n - offs[tid], len(faults))
+        if tid not in flats:
+            flats[tid] = G.flatten(p)
+        c = dict(cfgs[ci], retry=False)     # scenario_autoretry announces a scenario twice: outside the statement of C15
+        jobs.append({"key": ["plan", tid + 1, ci + 1, fi + 1], "prog": p, "flat": flats[tid], "cfg": c, "fault": faults[fi],
+                     "fault_kind": "assert" if (tid + ci + fi) % 3 == 0 else "exc", "pass": "reports"})
     return thin(jobs, quota, rnd), total
 
 
